@@ -219,6 +219,7 @@ def geo_cases(tier):
                          'spaces': spaces, 'nx': nx, 'ny': ny, 'nz': nz}
                     if how == 'gmsh':
                         c['m'] = m; c['fmt'] = '2.2' if (conv + atm + len(chars)) % 2 else '4.1'
+                    if how == 'rect' and not big and (nx + ny + nz + atm) % 3 == 0: c['switch'] = (nx + atm) % 2
                     yield c
     return g
 
@@ -272,6 +273,7 @@ def geo_random(draw):
     if case is not None: c['case'] = case
     warm = draw(st.sampled_from([None, None, 0, 1, 2, 3]))
     if warm is not None and warm != conv: c['warm'] = warm
+    if how != 'radial' and draw(st.integers(0, 3)) == 0: c['switch'] = draw(st.integers(0, 1))
     nzmode = draw(st.integers(0, 2))
     nz = near(layeff) if nzmode == 0 else draw(st.integers(1, 6))
     if how == 'rect':
@@ -600,9 +602,10 @@ def names_distinct(R, names, what, sig):
     return True
 
 
-def judge_mulgrid(R, g, case, chars, ncols, nnodes, nz):
+def judge_mulgrid(R, g, case, chars, ncols, nnodes, nz, blocks_only=False):
     conv, atm, just, spaces = case['conv'], case['atm'], case['just'], case['spaces']
     ctyp, cL = NR.field(conv, 'column'); ltyp, lL = NR.field(conv, 'layer')
+    if blocks_only: return _judge_blocks(R, g, atm, ncols, nz)
     # nodes, columns, layers
     R.check(len(g.nodelist) == nnodes and len(g.node) == nnodes, 'geo:node-lost',
             '%d nodes expected, list has %d, dictionary %d' % (nnodes, len(g.nodelist), len(g.node)))
@@ -618,6 +621,10 @@ def judge_mulgrid(R, g, case, chars, ncols, nnodes, nz):
         for o in objs:
             if not check_name_form(R, o.name, typ, L, chars, spaces, just, what, doc_justified(conv, what)): break
     if R.findings: return
+    _judge_blocks(R, g, atm, ncols, nz)
+
+
+def _judge_blocks(R, g, atm, ncols, nz):
     # blocks
     natm = {0: 1, 1: ncols, 2: 0}[atm]
     blocks = g.block_name_list
@@ -759,6 +766,19 @@ def run_geo(case, R):
     if how == 'radial': judge_radial(R, g, case, chars, ncols, nz)
     else: judge_mulgrid(R, g, case, chars, ncols, nnodes, nz)
     if over and not R.findings: R.label('geo:beyond-model-capacity-but-sound')
+    # the same geometry object switched, through the public `convention` property, to another convention of the same name
+    # lengths: its block names are then those of the new convention and still invert to (column, layer)
+    if how != 'radial' and not over and not R.findings and case.get('switch') is not None and conv in SWITCH:
+        new = SWITCH[conv][case['switch'] % 2]
+        R.label('geo:convention-switched:%d->%d' % (conv, new))
+        with R.lib('set-convention'): g.convention = new
+        before = len(R.findings)
+        judge_mulgrid(R, g, case, chars, ncols, nnodes, nz, blocks_only=True)
+        R.findings[before:] = [('switched:' + sg, d) for sg, d in R.findings[before:]]
+        with R.lib('set-convention-back'): g.convention = conv
+        if len(R.findings) == before:
+            judge_mulgrid(R, g, case, chars, ncols, nnodes, nz, blocks_only=True)
+            R.findings[before:] = [('switched-back:' + sg, d) for sg, d in R.findings[before:]]
     # a geometry constructed by reading a file is a geometry the library constructs: the same names, judged the same way
     if how != 'radial' and not over and not R.findings and just == 'r':       # (the file format right-justifies names)
         fn = os.path.join(R.tmp, 'geo.dat')
@@ -772,6 +792,8 @@ def run_geo(case, R):
                     lambda: 'block names of the re-read geometry differ: %r' % (
                         [(a, b) for a, b in zip(g.block_name_list, g2.block_name_list) if a != b][:4],))
 
+
+SWITCH = {0: (2, 3), 2: (0, 3), 3: (2, 0)}        # conventions with the same name lengths (3-character columns, 2-character layers)
 
 def run_case(case, R):
     k = case['k']
